@@ -35,7 +35,7 @@ type Scn struct {
 	Weight  int    `json:"weight"` // 0 = not written
 	MinWait int    `json:"min_waiting_time"`
 	Items   []Item `json:"items"`
-	Reqs    int    `json:"requests"` // r1…rReqs
+	Reqs    int    `json:"requests"`          // r1…rReqs
 	Broken  string `json:"template_error_in"` // request whose URI template always fails ("" none)
 }
 
@@ -212,13 +212,10 @@ requests:
 func genCase(rng *rand.Rand, instances int) Case {
 	c := Case{Instances: instances, Cycles: 1 + rng.Intn(3), Seed: rng.Int63(), Fails: map[string]map[int]Fail{}}
 	nScn := 1 + rng.Intn(3)
-	weights := [][]int{{0}, {1, 1}, {2, 1}, {2, 4}, {0, 3}, {6, 4}, {1, 2, 3}, {2, 2, 2}, {4, 0, 2}, {3, 6, 9}}
-	var ws []int
-	for {
-		ws = weights[rng.Intn(len(weights))]
-		if len(ws) == nScn {
-			break
-		}
+	// weights: unset (0) or 1…9, in every combination incl. common divisors shared by only some of them
+	ws := make([]int, nScn)
+	for i := range ws {
+		ws[i] = []int{0, 1, 2, 2, 3, 4, 4, 6, 8, 9}[rng.Intn(10)]
 	}
 	for i := 0; i < nScn; i++ {
 		s := Scn{Name: fmt.Sprintf("s%c", 'A'+i), Weight: ws[i], Reqs: 1 + rng.Intn(3)}
@@ -617,6 +614,10 @@ func main() {
 		Fails: map[string]map[int]Fail{"sA": {1: {Pos: 1, Kind: "status500"}}}}, 100)
 	runCase(res, Case{Scns: []Scn{{Name: "sA", Weight: 2, Reqs: 1, Items: []Item{{Req: "r1", Count: 2, SleepMs: 10}, {SleepMs: 15}}}, {Name: "sB", Weight: 4, Reqs: 1, Items: []Item{{Req: "r1"}}}},
 		Instances: 4, Cycles: 3, Rows: 8, Fails: map[string]map[int]Fail{"sA": {}, "sB": {2: {Pos: 0, Kind: "drop"}}}}, 101)
+	runCase(res, Case{Scns: []Scn{{Name: "sA", Weight: 2, Reqs: 1, Items: []Item{{Req: "r1"}}}, {Name: "sB", Weight: 4, Reqs: 1, Items: []Item{{Req: "r1"}}}, {Name: "sC", Weight: 3, Reqs: 1, Items: []Item{{Req: "r1"}}}},
+		Instances: 2, Cycles: 2, Rows: 9, Fails: map[string]map[int]Fail{"sA": {}, "sB": {}, "sC": {}}}, 102)
+	runCase(res, Case{Scns: []Scn{{Name: "sA", Weight: 2, Reqs: 1, Items: []Item{{Req: "r1"}}}, {Name: "sB", Weight: 2, Reqs: 1, Items: []Item{{Req: "r1"}}}, {Name: "sC", Weight: 1, Reqs: 1, Items: []Item{{Req: "r1"}}}},
+		Instances: 1, Cycles: 1, Rows: 3, Fails: map[string]map[int]Fail{"sA": {}, "sB": {}, "sC": {}}}, 103)
 	n := vkit.N(90, 2500)
 	for i := 0; i < n; i++ {
 		inst := 1
